@@ -7,6 +7,6 @@ From MV Require Import Bytes GenPath PathModel.
 Extraction Language OCaml.
 Extraction "model.ml"
   b2n n2b
-  path_is_secure path_secure_as dir_verdict path_is_accessible visited startup after_start seed_of seed_after
+  path_is_secure path_secure_as dir_verdict path_is_accessible visited startup after_start seed_of seed_after seed_written pid_of perm_at
   keyfile_check logfile_check seed_step created sock_recipe lock_recipe pid_recipe seed_recipe log_recipe
   pid_write seed_write sock_bind lock_step log_open.
